@@ -68,6 +68,8 @@ impl Lexer {
     }
 
     pub fn peek(&self) -> Option<Token> {
+        #[cfg(feature = "verif")]
+        crate::verif::lexer_read(self.buf.len());
         self.buf.get(self.cursor).copied()
     }
 
@@ -78,6 +80,8 @@ impl Lexer {
 
     /// Peeks `n` from current peeked position without modifying cursor
     pub fn peek_n(&self, n: usize) -> Option<Token> {
+        #[cfg(feature = "verif")]
+        crate::verif::lexer_read(self.buf.len());
         self.buf.get(self.cursor + n).copied()
     }
 
@@ -88,6 +92,8 @@ impl Lexer {
 
     /// Set cursor to position and reset peek
     pub fn set_cursor(&mut self, cursor: usize) {
+        #[cfg(feature = "verif")]
+        crate::verif::lexer_advance();
         self.cursor = cursor;
     }
 
@@ -100,7 +106,11 @@ impl Iterator for Lexer {
     type Item = Token;
 
     fn next(&mut self) -> Option<Self::Item> {
+        #[cfg(feature = "verif")]
+        crate::verif::lexer_read(self.buf.len());
         self.buf.get(self.cursor).copied().map(|tok| {
+            #[cfg(feature = "verif")]
+            crate::verif::lexer_advance();
             self.cursor += 1;
             tok
         })
